@@ -63,6 +63,8 @@ class AsyncWorld:
             'faults': sorted(f for f in ('gate_fail', 'raise', 'skip', 'sleep', 'src', 'end_raise')
                              if rng.random() < 0.5),
             'ctor_link': rng.random() < 0.25,
+            'ctor_kind': rng.choice(['coro', 'agen', 'bcoro', 'sgen']),
+            'update_ctx': rng.random() < 0.3,
         }
         if rng.random() < 0.25:
             cfg['faults'] = []           # fault-free share
@@ -86,7 +88,8 @@ class AsyncWorld:
                 continue
             choice = weighted(rng, [('assign', 5 if assigns < max_assign_total else 0),
                                     ('src', 2 if 'src' in cfg['faults'] else 0.3),
-                                    ('resolve', 4), ('job', 2), ('run', 1)])
+                                    ('resolve', 4), ('job', 2), ('run', 1),
+                                    ('uopen', 0.8 if cfg['update_ctx'] else 0), ('uclose', 1.0 if cfg['update_ctx'] else 0)])
             if choice == 'assign':
                 assigns += 1
                 nid[0] += 1
@@ -99,6 +102,11 @@ class AsyncWorld:
                     ops.append({'op': 'do', 'do': 'assign', **nxt})
             elif choice == 'src':
                 ops.append({'op': 'do', 'do': 'src'})
+            elif choice == 'uopen':
+                nid[0] += 1
+                ops.append({'op': 'do', 'do': 'uopen', 't': rng.randrange(cfg['n_targets']), 'p': rng.randrange(cfg['n_params']), 'id': nid[0]})
+            elif choice == 'uclose':
+                ops.append({'op': 'do', 'do': 'uclose', 't': rng.randrange(cfg['n_targets'])})
             elif choice == 'resolve':
                 ops.append({'op': 'resolve', 'k': rng.randint(0, 3),
                             'fail': 'gate_fail' in cfg['faults'] and rng.random() < 0.15})
@@ -159,6 +167,8 @@ class AsyncWorld:
             if op['op'] == 'do':
                 if op['do'] == 'assign':
                     sk.append(f"assign:{op['kind']}")
+                elif op['do'] in ('uopen', 'uclose'):
+                    sk.append(op['do'])
                 else:
                     sk.append(op['do'])
             elif op['op'] == 'resolve':
@@ -367,8 +377,18 @@ class _Run:
         self.after_assign = {}  # aid -> value right after the assignment executed
         self.applied = {}     # aid -> number of APPLY attributable
         self.first_specs = {}
+        self.uctx = {}        # target -> stack of (restorer, pname, spec to restore or None)
         for t in range(cfg['n_targets']):
-            self.targets.append(Tgt())
+            if t == 0 and cfg.get('ctor_link'):
+                # the link is made in the constructor: the task waits until the object is initialized
+                spec = {'id': 0, 'kind': cfg.get('ctor_kind', 'coro'), 'gates': 1, 'items': 1, 'out': 'value', 'sleep': 0, 't': 0, 'p': 0}
+                self.assigns[(0, 'a')] = [spec]
+                self.log("ASSIGN a0 T0.a " + spec['kind'] + " (constructor)")
+                self.out.stats['assign.constructor_link'] += 1
+                self.targets.append(Tgt(a=self.make_body(spec)))
+                self.after_assign[0] = None
+            else:
+                self.targets.append(Tgt())
         for t, obj in enumerate(self.targets):
             for pn in PNAMES[:cfg['n_params']]:
                 obj.param.watch(self._make_cb(t, pn), [pn], onlychanged=False)
@@ -381,6 +401,8 @@ class _Run:
     # -- oracle: attribution -------------------------------------------------------------
     def attributable(self, spec, value):
         kind = spec['kind']
+        if kind == 'initial':
+            return value is None
         if kind == 'plain':
             return value == f"v{spec['id']}"
         if kind == 'pref':
@@ -424,6 +446,10 @@ class _Run:
             if any(not g[2] for g in self.gates) or self.loop.parked_jobs():
                 self.out.stats['probe.src_change_while_pending'] += 1
             self.guard(lambda: setattr(self.src, 'x', self.xcount), 'src')
+        elif what == 'uopen':
+            self.do_uopen(op)
+        elif what == 'uclose':
+            self.do_uclose(op)
         elif what == 'rxset':
             self.rx_set()
         elif what == 'rxread':
@@ -470,6 +496,49 @@ class _Run:
             val = self.make_body(spec)
         self.guard(lambda: setattr(obj, pn, val), 'assign')
         self.after_assign[spec['id']] = getattr(obj, pn)
+
+    def do_uopen(self, op):
+        """`with target.param.update(p=plain)` entered: a plain override that is undone (value and link) on exit"""
+        cfg = self.cfg
+        t = op['t'] % cfg['n_targets']
+        pn = PNAMES[op['p'] % cfg['n_params']]
+        st = self.uctx.setdefault(t, [])
+        if len(st) >= 2:
+            return
+        hist = self.assigns.setdefault((t, pn), [])
+        prev = hist[-1] if hist else None
+        if self.pending_for(t, pn):
+            self.out.stats['probe.update_ctx_while_pending'] += 1
+        spec = {'id': op['id'], 'kind': 'plain', 't': t, 'p': op['p']}
+        hist.append(spec)
+        self.log(f"ASSIGN a{spec['id']} T{t}.{pn} plain (update context)")
+        holder = {}
+
+        def enter():
+            holder['cm'] = self.targets[t].param.update(**{pn: f"v{spec['id']}"})
+            holder['cm'].__enter__()
+        self.guard(enter, 'uopen')
+        self.after_assign[spec['id']] = getattr(self.targets[t], pn)
+        if 'cm' in holder:
+            st.append((holder['cm'], pn, prev))
+
+    def do_uclose(self, op):
+        cfg = self.cfg
+        t = op['t'] % cfg['n_targets']
+        st = self.uctx.get(t)
+        if not st:
+            return
+        cm, pn, prev = st.pop()
+        hist = self.assigns[(t, pn)]
+        if prev is None:
+            restored = {'id': -1, 'kind': 'initial', 't': t}
+        else:
+            restored = dict(prev)           # the previous value or link is assigned again
+        hist.append(restored)
+        self.log(f"ASSIGN a{restored['id']} T{t}.{pn} {restored['kind']} (restored by update context)")
+        self.guard(lambda: cm.__exit__(None, None, None), 'uclose')
+        self.after_assign[restored['id']] = getattr(self.targets[t], pn)
+        self.out.stats['probe.update_ctx_restored'] += 1
 
     # -- rx mode -----------------------------------------------------------------------------
     def build_rx(self):
@@ -704,7 +773,10 @@ class _Run:
             val = getattr(self.targets[t], pn)
             aid, kind = latest['id'], latest['kind']
             self.log(f"FINAL T{t}.{pn} = {val!r} latest=a{aid}:{kind} x={curx}")
-            if kind == 'plain':
+            if kind == 'initial':
+                if val is not None:
+                    self.violate('C10.final', f"T{t}.{pn} holds {val!r}, the update context restored the initial value None")
+            elif kind == 'plain':
                 if val != f"v{aid}":
                     self.violate('C10.final', f"T{t}.{pn} holds {val!r}, latest assignment is plain v{aid}")
             elif kind == 'pref':
